@@ -480,4 +480,58 @@ def tileApply (t : TileTarget) : Stmt :=
             (.seq i.1 (.loop vi (.var t.outI) (.var t.elI) (.lit si) bi)))))
   | _, _ => t.original
 
+/-! ## FoldConditionalReturnExpressionsTrans
+
+MiniF has no RETURN.  `RStmt` adds it around return-free MiniF statements: `base s` is any MiniF
+statement (loops included — a RETURN inside a loop is outside this model), `ret` is RETURN, and
+`ite` is an IfBlock whose branches may return.  `execR` yields the store and whether the routine
+has returned. -/
+
+inductive RStmt where
+  | skip
+  | seq (a b : RStmt)
+  | base (s : Stmt)
+  | ret
+  /-- `hasElse` = the IfBlock has an `else_body` (possibly empty) -/
+  | ite (c : Expr) (t f : RStmt) (hasElse : Bool)
+  deriving DecidableEq, Repr, Inhabited
+
+def execR : RStmt → Store → Store × Bool
+  | .skip, σ => (σ, false)
+  | .seq a b, σ =>
+    let r := execR a σ
+    if r.2 then r else execR b r.1
+  | .base s, σ => (exec s σ, false)
+  | .ret, σ => (σ, true)
+  | .ite c t f _, σ => if eval c σ ≠ 0 then execR t σ else execR f σ
+
+/-- right-nested sequence of a statement list (as `MiniF.seqs`) -/
+def seqsR : List RStmt → RStmt
+  | [] => .skip
+  | [s] => s
+  | s :: rest => .seq s (seqsR rest)
+
+/-- `isinstance(node.if_body[0], Return)` -/
+def firstIsRet : RStmt → Bool
+  | .ret => true
+  | .seq a _ => firstIsRet a
+  | _ => false
+
+/-- `is_conditional_return`: an IfBlock without else whose first statement is a Return -/
+def condRet : RStmt → Option Expr
+  | .ite c t .skip false => if firstIsRet t then some c else none
+  | _ => none
+
+/-- validate only requires a Routine -/
+def foldValidate (_body : List RStmt) : Except Refusal Unit := .ok ()
+
+/-- the loop over `routine[:]`: a conditional return becomes `if (.not. c)` holding everything
+that followed it (which is processed in the same way inside its new parent) -/
+def foldApply : List RStmt → List RStmt
+  | [] => []
+  | s :: rest =>
+    match condRet s with
+    | some c => [.ite (.un .not c) (seqsR (foldApply rest)) .skip false]
+    | none => s :: foldApply rest
+
 end C05
